@@ -60,12 +60,13 @@ Section Run.
     wf (wb s) /\ sent_of (tr s) ++ abs (wb s) = written_of (tr s) /\
     twi s = length (written_of (tr s)) /\ twd s = length (sent_of (tr s)) /\
     bsize (wb s) = twi s - twd s /\
-    map snd (wfut s) = pending_ids (tr s) /\
+    map snd (wfut s) = queued_ids (tr s) /\
+    pending_ids (tr s) = filter (fun i => negb (cancelled_in i (tr s))) (queued_ids (tr s)) /\
     match maxb s with Some mx => bsize (wb s) <= mx | None => True end.
   Proof.
     intros Ho. destruct (run_inv cn t m sc ops) as (_ & _ & _ & Hc). fold s in Hc.
-    rewrite Ho in Hc. destruct Hc as (A & B & C & D & (E & _) & F & G).
-    repeat (split; [assumption|]). split; [|split; assumption].
+    rewrite Ho in Hc. destruct Hc as (A & B & C & D & (E & E' & _) & F & G).
+    repeat (split; [assumption|]). split; [|split; [assumption|split; assumption]].
     destruct A as (_ & _ & A3). rewrite A3, C, D, <- B, app_length. lia.
   Qed.
 
@@ -151,7 +152,8 @@ Proof.
       assert (forall q dn t0, exists post, snd (resolve_loop q dn t0) = post ++ t0) as L.
       { induction q as [|[idx id] q IH]; intros dn t0; simpl; [exists []; reflexivity|].
         destruct (dn <? idx); [exists []; reflexivity|].
-        destruct (IH dn (EResolve id :: t0)) as [post E]. exists (post ++ [EResolve id]).
+        destruct (IH dn ((if cancelled_in id t0 then ESkip id else EResolve id) :: t0)) as [post E].
+        exists (post ++ [if cancelled_in id t0 then ESkip id else EResolve id]).
         rewrite E, <- app_assoc. reflexivity. }
       destruct (L (wfut s0) (twd s0) (tr s0)) as [post E].
       destruct (resolve_loop (wfut s0) (twd s0) (tr s0)); simpl in *. exists post; exact E. }
